@@ -2,7 +2,7 @@
 from esrally import track
 from esrally.driver import driver
 
-from harness.common import concrete
+from harness.common import accessor, concrete
 from symx import core
 from symx.core import fresh_int, observe, shadowed
 from symx.explore import Harness
@@ -257,7 +257,7 @@ HARNESSES = [
             stubs=["fake actor runtime, metrics store / telemetry stubs (the Driver's coordination logic is real)"],
             bounds={"schedules": "the 1- and 2-element families of allocation_matrix", "cores": "1..3"},
             doc="Driver.start_benchmark: steps == schedule elements == progress entries; progress message defined for every step"),
-    Harness("parallel_client_count", parallel_client_count, "bounded-exhaustive", lambda tier: [{}], reads=READS + [track.Parallel.clients.fget, track.Parallel.remove_task],
+    Harness("parallel_client_count", parallel_client_count, "bounded-exhaustive", lambda tier: [{}], reads=READS + [accessor(track.Parallel.clients), track.Parallel.remove_task],
             bounds={"sub-tasks": "1..3 with 1..3 clients", "cap": "none/1/2/5", "removed": "any proper subset"},
             doc="parallel client count follows the sub-tasks the element currently holds"),
     Harness("worker_assignments", worker_assignments, "bounded-exhaustive", _host_slices, reads=READS,
